@@ -41,6 +41,18 @@ CLAIMED = {
              "undecodable line. Panic-freedom of the slicing rests on the random-bytes stream under catch_unwind (PARTIAL there).",
         note=COMMON_NOTE + "A crash leaves a prefix of the bytes written.",
         technique="Coq proof by induction over entries and cut offsets (prefix-code property of UTF-8) + differential check over all cuts"),
+    "C15": dict(
+        text="Theorems over the model of completion.rs with the unix character sets regenerated from the source: escape then "
+             "unescape is the identity (bare and double-quote rules; single quotes escape nothing); a replacement inserted "
+             "after text that ends outside quotes at a word boundary / after an open double or single quote is parsed back by "
+             "complete_path to the same start offset and the same path (extract_word walks back over the escaped word, "
+             "find_unclosed_quote is not confused by escaped quotes); candidates are exactly the directory entries whose "
+             "names start with the partial name, so a file offered once is offered again. PARTIAL: the longest-common-prefix "
+             "clause (byte-wise prefix backed off to a character boundary) is decided by the oracle (exact character-level "
+             "LCP) and the model correspondence only, no theorem yet.",
+        note=COMMON_NOTE + "The directory tree is a parameter of the model; std::fs/read_dir, home-directory expansion and "
+             "absolute paths are not modelled.",
+        technique="Coq proof by induction over the escaped word (backward scan / quote scanner invariants) + differential check on real temporary directories"),
     "C18": dict(
         text="Theorems, for every segmentation function: the byte arithmetic of apply_backspace_direct never panics and equals "
              "the stack semantics (backspace removes the cluster before it) for clusters of any byte length; the result is a "
